@@ -799,7 +799,8 @@ func c14Constructors(res *ev.Result) {
 func init() {
 	register(&Check{
 		ID: "C14", Level: "exploration", MinNontriv: 40,
-		Rule: "all 8191 valid event masks (PrettyString then ParseEventMask, exhaustive); every optional constructor x every accepted argument type x boundary values and typed nils; seeded random OCI/NRI resources, mounts, devices, hooks, env with boundary integers, unset-vs-zero optionals and empty collections through both round trips; Copy() compared, walked for shared addresses and mutated; distinct = distinct shapes (which optionals present, collection sizes) per family",
+		Anchors: []string{"pkg/api/event.go", "pkg/api/optional.go", "pkg/api/resources.go", "pkg/api/device.go", "pkg/api/mount.go", "pkg/api/hooks.go", "pkg/api/env.go", "pkg/api/helpers.go"},
+		Rule:    "all 8191 valid event masks (PrettyString then ParseEventMask, exhaustive); every optional constructor x every accepted argument type x boundary values and typed nils; seeded random OCI/NRI resources, mounts, devices, hooks, env with boundary integers, unset-vs-zero optionals and empty collections through both round trips; Copy() compared, walked for shared addresses and mutated; ToOCI() results scribbled over (the NRI original must not change); the mask parser's first uses in the process from 16 goroutines at once under the race detector; distinct = distinct shapes (which optionals present, collection sizes) per family",
 		Assumptions: []string{
 			"environment entries have the name=value form (an entry without '=' has no NRI representation)",
 			"block-I/O and RDT classes and device-cgroup rules are outside what Copy()/the OCI representation are stated to carry and are excluded from those comparisons where not carried",
